@@ -19,7 +19,7 @@ import norm_c12
 from ikinds import (Contracts, FnKinds, FunctionIndex, Lin, Rng, Top, strip, _subscript, _is_incdec, coverage, frames_key, elsewhere)
 
 GEO = featlib.repo_path("kernel/geometry/")
-FILES = GEO + r"(patch_|parti_|mesh_node|mesh_part\.hpp|intern/patch_index)|" + featlib.repo_path("kernel/adjacency/graph.hpp")
+FILES = GEO + r"(patch_|parti_|mesh_node|mesh_part\.hpp|intern/patch_index|intern/target_set_computer)|" + featlib.repo_path("kernel/adjacency/graph.hpp")
 G = r"Adjacency::Graph$"
 
 
@@ -1441,6 +1441,180 @@ def rule_nonnull_arg(w):
         ck.ob("E7.nonnull-arg", key, not bad, pick[1], pick[2], pick[3])
 
 
+# -------------------------------------------------------------------------------------------------
+# PartiIterative: the offset pass and the fill pass of the elements-at-rank graph enumerate the same rows
+# -------------------------------------------------------------------------------------------------
+
+def rule_parti_two_pass(w):
+    ck = w.ck
+    R = "E3.parti-two-pass"
+    fns = w.find(r"Geometry::PartiIterative<.*>::build_elems_at_rank$")
+    if not fns:
+        ck.incomplete(R, "PartiIterative::build_elems_at_rank not instantiated")
+    for fn in fns:
+        fk = w.fk(fn)
+        name = short(fn)
+        P, I = "graph._domain_ptr", "graph._image_idx"
+        if fk.unknown:
+            ck.incomplete(R, "%s: %s" % (name, "; ".join(x[0] for x in fk.unknown)))
+            continue
+        offs = [e for e in fk.events if e.kind == "sub" and e.mode == "write" and e.arr is not None and e.arr.key == P and any(f.kind == "loop" for f in e.frames)]
+        fills = [e for e in fk.events if e.kind == "sub" and e.mode == "write" and e.arr is not None and e.arr.key == I]
+        if len(offs) != 1 or len(fills) != 1:
+            why = elsewhere(fk, (P, I, "graph"), names=C12NAMES)
+            ck.incomplete(R, "%s: %d offset definitions in loops, %d stores into the index array%s" % (name, len(offs), len(fills), ("; " + why) if why else ""))
+            continue
+        of, st = offs[0], fills[0]
+        # offsets: P[i+1] = |C[i]| + P[i] over i in [0,N)
+        olps = [f.loop for f in of.frames if f.kind == "loop"]
+        terms = dict((t, sg) for sg, t in (of.val_terms or []))
+        rowlen = [t for t in terms if t != "%s[$%d]" % (P, olps[0].depth if olps and olps[0] is not None else 0)]
+        m = re.match(r"^(.*)\[\$(\d+)\]\.size\(\)$", rowlen[0]) if len(rowlen) == 1 else None
+        if len(olps) != 1 or olps[0] is None or olps[0].kind != "range" or olps[0].lo != 0 or olps[0].hi is None or of.op != "=" or of.idx_canon != "($%d + 1)" % olps[0].depth \
+                or len(terms) != 2 or any(sg != 1 for sg in terms.values()) or m is None or int(m.group(2)) != olps[0].depth:
+            ck.incomplete(R, "%s: the offsets are not defined as `ptr[i+1] = C[i].size() + ptr[i]` over a counted loop (%s[%s] = %s)" % (name, P, of.idx_canon, of.val_canon))
+            continue
+        C, N = m.group(1), fk.norm(olps[0].hi)
+        # fill: for r in [0,M): for(x : C'[r]) idx[counter++] = x
+        sl = [f.loop for f in st.frames if f.kind == "loop"]
+        ix = strip(st.idx)
+        okform = len(sl) == 2 and sl[0] is not None and sl[1] is not None and sl[0].kind == "range" and sl[0].lo == 0 and sl[0].hi is not None and (sl[1].kind == "foreach" or (sl[1].kind == "adj" and getattr(sl[1], "container", False))) \
+            and ix.get("k") == "Ref" and ix.get("dk") == "local" and not any(f.kind == "if" for f in st.frames[len(of.frames) - 1:])
+        inner_c = None
+        if okform:
+            # the container the inner loop runs over: foreach(X) / each(X); a reference local naming the row resolves to its initialiser
+            mm = re.match(r"^(?:foreach|each)\(<?(.*?)>?\)$", sl[1].canon)
+            inner_c = mm.group(1) if mm else None
+            rng_node = strip(sl[1].node.get("range")) if sl[1].kind == "foreach" else (strip(sl[1].begin_call.get("obj")) if getattr(sl[1], "begin_call", None) is not None else None)
+            if rng_node is not None and rng_node.get("k") == "Ref" and rng_node.get("dk") == "local":
+                v0 = fk.locals.get(rng_node.get("d"))
+                if v0 is not None and v0.get("init") is not None and not fk.mut.get(rng_node.get("d")):
+                    inner_c = fk.canon(v0["init"], extra={sl[0].var: "$%d" % sl[0].depth})
+        m2 = re.match(r"^(.*)\[\$(\d+)\]$", inner_c) if inner_c else None
+        if not okform or m2 is None or int(m2.group(2)) != sl[0].depth:
+            ck.incomplete(R, "%s: the index array is not filled as `for(r < M) for(x : C[r]) idx[counter++] = x` (%s)" % (name, " > ".join(repr(f) for f in st.frames)))
+            continue
+        C2, M = m2.group(1), fk.norm(sl[0].hi)
+        cvar = fk.locals.get(ix["d"])
+        incs = [e for e in fk.events if e.kind == "scalar" and e.var == ix["d"]]
+        c0 = fk.size(cvar.get("init")) if cvar is not None and cvar.get("init") is not None else None
+        if len(incs) != 1 or incs[0].op != "++" or frames_key(incs[0].frames) != frames_key(st.frames) or c0 != Lin.const(0) or \
+                fk.decl_depth.get(ix["d"], -1) != len(sl) - 2:
+            ck.incomplete(R, "%s: the store cursor %s is not a counter from 0 advanced once per stored element" % (name, ix["n"]))
+            continue
+        dom = fk.norm(Lin.atom("Dom(graph)"))
+        problems = []
+        if C != C2:
+            problems.append("the row lengths are taken from %s but the rows are copied from %s" % (C, C2))
+        if N != M:
+            problems.append("the offsets are summed over %r rows but only the rows [0,%r) are copied into the index array: for %r != %r the remaining rows keep the "
+                            "zero-initialised entries (cell 0 repeated, their cells in no patch) resp. rows beyond the container are read" % (N, M, N, M))
+        if N != dom:
+            problems.append("the offsets are defined for %r rows, the graph has %r domain nodes" % (N, dom))
+        ck.ob(R, name, not problems, "; ".join(problems) if problems else
+              "offset pass and fill pass both enumerate the rows [0,%r) of %s; one store and one cursor advance per element, cursor from 0" % (N, C), fn.file, st.node.get("l"))
+
+
+# -------------------------------------------------------------------------------------------------
+# patch mesh parts: the target-set deduction really derives something, and sibling constructions agree
+# -------------------------------------------------------------------------------------------------
+
+def _has_effect(w, fn, depth=0):
+    """does the body of fn contain anything but assertions and calls of functions without effect?"""
+    if fn is None or fn.body is None or depth > 3:
+        return True
+    for n in walk(fn.body):
+        k = n.get("k")
+        if k in ("Assign", "New", "Delete", "Throw", "Return") or (k == "Un" and n.get("op") in ("++", "--")):
+            if k == "Return" and n.get("e") is None:
+                continue
+            return True
+        if k in ("Call", "MCall", "OpCall", "Construct", "TempObj"):
+            callee = n.get("callee") or ""
+            if callee.endswith("FEAT::assertion"):
+                continue
+            sub = w.findex.lookup(n) if k in ("Call", "MCall") else None
+            if sub is None or _has_effect(w, sub, depth + 1):
+                return True
+    return False
+
+
+def rule_patch_part_deduct(w):
+    ck = w.ck
+    sites = {}
+    for fn in w.fns:
+        if not re.search(r"Geometry::RootMeshNode<", fn.cls or "") or fn.tk not in ("inst", "spec", "plain"):
+            continue
+        fk = None
+        for n in w.norm.orig_nodes(fn):
+            if n.get("k") != "MCall" or not re.match(r"deduct_target_sets_from_(top|bottom)$", n.get("n") or ""):
+                continue
+            fk = fk or w.fk(fn)
+            name = short(fn)
+            full = (n.get("cfull") or "")
+            tail = full.rsplit("::", 1)[-1]
+            key = "%s/%s" % (name, tail)
+            callee = w.findex.lookup(n)
+            if callee is None:
+                ck.incomplete("E13.deduct-effect", "%s: instantiation %s not in the fact base" % (key, full))
+                continue
+            # the deduction proper is the TargetSetComputer<end_dim, current_dim> call of the instantiated body (the rest only re-reads entity counts)
+            comp = [x for x in walk(callee.body) if x.get("k") in ("Call", "MCall") and re.search(r"TargetSetComputer<.*>::(bottom_to_top|top_to_bottom)$", x.get("callee") or "")]
+            cfn = w.findex.lookup(comp[0]) if len(comp) == 1 else None
+            if cfn is None:
+                ck.incomplete("E13.deduct-effect", "%s: the TargetSetComputer call of %s is not in the fact base (%d calls found)" % (key, tail, len(comp)))
+                continue
+            eff = _has_effect(w, cfn)
+            # the dimensions it updates: loop `for(i = a; i <= b; ++i) _num_entities[i] = ...`
+            ck.ob("E13.deduct-effect", key, eff, ("%s derives target sets (instantiated body has an effect)" % tail) if eff else
+                  "%s is the end of the template recursion: TargetSetComputer<d,d> does nothing and only the count of dimension d is re-read, so NO target set is derived - "
+                  "the mesh part keeps only the target set it was built with (from_bottom starts at the vertices and needs end_dim > 0 ... shape_dim, from_top starts at the cells and "
+                  "needs end_dim < shape_dim); the patch mesh part then has no vertices / edges / faces" % tail, fn.file, n.get("l"))
+            # which object: built by PatchMeshPartFactory in this function?
+            fact = [e for e in fk.events if e.kind == "call" and (e.callee or "").endswith("PatchMeshPartFactory") and "PatchMeshPartFactory<" in (e.callee or "")]
+            if fact:
+                a0 = strip(n["a"][0]) if n.get("a") else None
+                for _ in range(3):
+                    if a0 is not None and a0.get("k") == "Ref" and a0.get("dk") == "local":
+                        v0 = fk.locals.get(a0.get("d"))
+                        if v0 is not None and v0.get("init") is not None and not fk.mut.get(a0.get("d")):
+                            a0 = strip(v0["init"])
+                holder = None
+                if a0 is not None and a0.get("k") == "MCall" and a0.get("n") == "get_index_set_holder":
+                    o = strip(a0.get("obj"))
+                    for _ in range(3):
+                        if o is not None and o.get("k") == "Un" and o.get("op") == "*":
+                            o = strip(o["e"])
+                        o = fk._resolve_local(o) if o is not None else None
+                    holder = "%s.get_index_set_holder()" % fk.canon(o) if o is not None else None
+                sites.setdefault(ikinds.strip_targs(fn.cls or "") + "|" + (fn.cls or ""), []).append((name, tail, holder, fn, n))
+    for cls, lst in sorted(sites.items()):
+        kinds = sorted({(t, h) for nm, t, h, fn, n in lst})
+        cname = short(lst[0][3]).split("::")[0]
+        if any(h is None for nm, t, h, fn, n in lst):
+            ck.incomplete("E13.patch-part-siblings", "%s: the index set holder handed to the deduction is not `<mesh>.get_index_set_holder()`" % cname)
+            continue
+        if len(lst) < 2:
+            ck.incomplete("E13.patch-part-siblings", "%s: only %d construction site of a patch mesh part found" % (cname, len(lst)))
+            continue
+        # majority form = reference; every site must use it
+        from collections import Counter
+        cnt = Counter((t, h) for nm, t, h, fn, n in lst)
+        ref = cnt.most_common(1)[0][0]
+        bad = [(nm, t, h, fn, n) for nm, t, h, fn, n in lst if (t, h) != ref]
+        tie = len(cnt) > 1 and cnt.most_common(2)[0][1] == cnt.most_common(2)[1][1]
+        if tie:
+            ck.ob("E13.patch-part-siblings", cname, False, "the %d sites that build a patch mesh part with PatchMeshPartFactory disagree on the deduction: %s" % (
+                len(lst), "; ".join("%s: %s(%s)" % (nm.split("::")[-1], t, h) for nm, t, h, fn, n in lst)), lst[0][3].file, lst[0][4].get("l"))
+        else:
+            ck.ob("E13.patch-part-siblings", cname, not bad, ("%s builds the patch mesh part with %s(%s), the sibling construction sites (%s) use %s(%s): the patch mesh parts of "
+                  "sibling ranks and the own patch are different maps" % (bad[0][0].split("::")[-1], bad[0][1], bad[0][2], ", ".join(nm.split("::")[-1] for nm, t, h, fn, n in lst if (t, h) == ref), ref[0], ref[1]))
+                  if bad else "all %d construction sites (%s) derive the lower-dimensional target sets by %s(%s)" % (len(lst), ", ".join(nm.split("::")[-1] for nm, t, h, fn, n in lst), ref[0], ref[1]),
+                  (bad[0][3] if bad else lst[0][3]).file, (bad[0][4] if bad else lst[0][4]).get("l"))
+    if not sites:
+        ck.incomplete("E13.patch-part-siblings", "no patch mesh part construction (PatchMeshPartFactory + deduct_target_sets_*) found in RootMeshNode")
+
+
 def run(tier):
     ck = Check("C12", tier)
     ck.rule("E1.member-binding", "the halo builders are wired to the right sets: PatchHaloBuild<Shape,codim> binds the patch part's target set of the face dimension and the "
@@ -1484,6 +1658,13 @@ def run(tier):
             "a part that does not intersect the patch leaves the local null, so an unguarded call aborts", 2)
     ck.rule("E12.bcast-agree", "PartiIterative::build_elems_at_rank: sending and receiving branch broadcast identical counts into sufficiently long arrays and build graphs of identical dimensions", 1)
     ck.rule("E7.parti-precond", "PartiIterative checks num_patches > 0 and num_elems >= num_patches before drawing distinct centre cells", 2)
+    ck.rule("E3.parti-two-pass", "PartiIterative::build_elems_at_rank: the offset pass (ptr[i+1] = |C[i]| + ptr[i]) and the fill pass (for r: for x in C[r]: idx[counter++] = x) "
+            "enumerate the same rows [0,N) of the same container, N = number of domain nodes of the graph, one store and one cursor advance per element "
+            "(patch count and communicator size are different extents: for num_patches != comm.size() a fill over the wrong one loses the cells of the remaining patches)", 1)
+    ck.rule("E13.deduct-effect", "every deduct_target_sets_from_top/bottom<end_dim> call of RootMeshNode reaches an instantiation of TargetSetComputer that derives something: "
+            "the <d,d> end of the template recursion is an empty function, so from_bottom<shape_dim> / from_top<0> leave the mesh part with the one target set it already had", 3)
+    ck.rule("E13.patch-part-siblings", "sibling constructions of the same object agree: every RootMeshNode function that builds a patch mesh part with PatchMeshPartFactory "
+            "(both extract_patch overloads, create_patch_meshpart) derives the lower-dimensional target sets by the same deduction on the index set holder of the node's own mesh", 1)
     w = World(ck, tier)
     rule_member_binding(w)
     rule_kinds(w)
@@ -1498,6 +1679,8 @@ def run(tier):
     rule_rekey(w)
     rule_parti_retry(w)
     rule_nonnull_arg(w)
+    rule_parti_two_pass(w)
+    rule_patch_part_deduct(w)
     if w.norm.log:
         ck.note("read through normalisation (lib/norm_c12.py): " + "; ".join("%s: %s" % (k.replace("FEAT::Geometry::", "")[:70], ", ".join(sorted(set(v)))) for k, v in sorted(w.norm.log.items()))[:1500])
     ck.assume("TargetSet: entries are indices of the parent (base) mesh entities, one per part entity; IndexSet(i,j): i < get_num_entities(), value < get_index_bound(); "
